@@ -53,7 +53,7 @@ def gen_cases(tier, seed):
     mds = [4096] if tier == "quick" else [4096, 8192, 65536, 1024 * 1024]
     for impl in ("sync", "async"):
         for var in variants:
-            for md in mds:
+            for md in (mds if not (tier == "quick" and var == 3) else [65536]):     # (quick: the directory push runs against a device with a large maxdata, the healed device announces 4096)
                 # the case learns N itself; k ranges are split into blocks so that shards share the work
                 for block in range(16):
                     yield {"impl": impl, "variant": var, "maxdata": md, "block": block, "nblocks": 16, "seed": str(seed), "pairs": tier == "thorough" and md == 4096, "quick": tier == "quick"}
@@ -192,6 +192,8 @@ def run_case(case):
                 injected[0] = None
             sess.core.faults = None
             sess.core.stall = None
+            if case["maxdata"] > 4096:
+                sess.sim.maxdata = 4096          # the healthy device the object connects to next announces the legacy limit: nothing sized for the old session may survive
             for name, lk in locks_of(sess.dev):
                 stats["lock_checks"] += 1
                 if lk.locked():
@@ -238,6 +240,9 @@ def run_case(case):
                     if not o.ok or v:
                         viol.append({"mechanism": "replay-failed", "detail": "%s: after reconnecting, step %d %s: %s %s" % (where, i, step["op"], o.brief(120), (v[0]["detail"][:120] if v else ""))})
                         break
+                for mv in sess.monitor.of("C07"):
+                    viol.append({"mechanism": "stale-limits", "detail": "%s: after reconnecting to a device announcing maxdata %d: %s" % (where, sess.sim.maxdata, mv.detail[:160])})
+                    break
                 try:
                     stale = sess.dev._io_manager._packet_store
                     # packets of this session's own background stream may be parked; anything keyed by an id of the old session is stale
